@@ -234,6 +234,13 @@ def run(prop, tier):
                             # raw clocks stay >= 0 when shifted by -first
                             jobs.append((combo, looms, ot, True))
 
+        # a thread that starts tracing more than one hour after the first one (same loom, hence the same clock)
+        GATE = 3600 * 10 ** 9 + 5
+        for first in ((0, 1), (1, 1)):
+            for late in ((GATE, GATE + 1), (GATE, GATE + BIG)):
+                jobs.append(((first, late), ("A", "A"), None, False))
+                jobs.append(((late, first), ("A", "A"), None, False))
+
         def one_emu(j):
             combo, looms, ot, zero = j
             td = os.path.join(base, "e%d" % os.getpid())
@@ -251,15 +258,19 @@ def run(prop, tier):
             args = (["-c", os.path.join(td, "offs.txt")] if use_c else []) + [td]
             rc, out, err = emusrv.run_tool(emu, args)
             if rc != 0:
-                e = [l for l in err.split("\n") if "ERROR" in l][:2]
+                e = [l for l in err.split("\n") if "ERROR" in l]
+                e = e[:2] + [l for l in e[2:] if "clock gate" in l][:1]
                 return "ovniemu rejected a sorted trace (exit %r): %s" % (rc, " | ".join(e))
             return check_prv(open(os.path.join(td, "thread.prv")).read(), st, ot)
         for j, msg in zip(jobs, pmap(one_emu, jobs)):
             ctx.add(evaluations=1, transitions=sum(len(c) for c in j[0]), traces_validated_against_impl=1)
             if msg:
+                m_ = {"kind": "emu-offsets"}
+                if "clock gate" in msg and len(set(j[1])) == 1:
+                    m_["cause"] = "clock-gate-same-loom"
                 ctx.violation("ovniemu streams %r looms %r offsets %r%s: %s" % (j[0], j[1], j[2], " (first corrected clock 0)" if j[3] else "", msg),
                               {"engine": "E6 ovniemu", "streams": [list(c) for c in j[0]], "looms": list(j[1]), "offsets": j[2], "first_corrected_clock_zero": j[3]},
-                              {"kind": "emu-offsets"})
+                              m_)
         ctx.add(states=len(jobs))
         ctx.part("ovniemu-offsets", cases=len(jobs), loom_layouts=layouts)
 
@@ -298,7 +309,7 @@ def run(prop, tier):
         ctx.sample({"ovniemu": {"streams": [[0, 1, 5], [1, BIG]], "looms": ["node.1", "node.2"], "offsets": {"node": 3}}})
         ctx.cov["rule"] = ("heap: every sequence of insert(0..2)/pop up to length 9/11; ovnidump: every set of <= 3 streams of <= 2/3 events with clocks in "
                            "{0,1,(5),3e9+1} plus 4-7 streams of tiny shapes; ovniemu: thread life-cycles on <= 3 streams x loom/host layouts (incl. two looms "
-                           "of one host) x every non-trivial offset vector over {-2,0,3}; the same with the first corrected clock exactly 0; all 6 creation orders of 2 x 27 three-stream traces (distinct pid/tid; the same pid/tid in two looms)")
+                           "of one host) x every non-trivial offset vector over {-2,0,3}; the same with the first corrected clock exactly 0; two threads of one loom starting more than an hour apart; all 6 creation orders of 2 x 27 three-stream traces (distinct pid/tid; the same pid/tid in two looms)")
         ctx.cov["distinct_nontrivial"] = ctx.cov["states"]
         ctx.assumptions += ["<= 7 streams; offsets far from int64 overflow; equal corrected clocks across streams may be replayed in any order"]
         return ctx.finish()
